@@ -79,6 +79,14 @@ pub struct Case {
     /// per-thread yield pattern at SQLite storage ticks (0 = none)
     pub yields: Vec<u8>,
     pub relay_set_size: u8,
+    /// threads that race to save *different* new groups under one and the same Nostr group id
+    /// (0 or 1 = none): in any sequential order exactly one of them succeeds
+    #[serde(default)]
+    pub claimers: u8,
+    /// threads that open one and the same fresh database path at once (0 or 1 = none); the low
+    /// bits of `writers_cycles` pick the constructor
+    #[serde(default)]
+    pub first_opens: u8,
 }
 
 fn gid(g: u8) -> GroupId {
@@ -414,6 +422,161 @@ fn stress<S: MdkStorageProvider + Sync>(st: &S, case: &Case, rep: &mut CaseRepor
     Ok(())
 }
 
+/// K threads, released together round after round, each saving a different new group that claims
+/// the round's Nostr group id. Both backends document that an id belongs to at most one group.
+fn claim_phase<S: MdkStorageProvider + Sync>(st: &S, case: &Case, rep: &mut CaseReport) -> Result<(), Failure> {
+    let k = case.claimers.min(6) as usize;
+    if k < 2 {
+        return Ok(());
+    }
+    let rounds: usize = if case.sqlite { 40 } else { 120 };
+    let barrier = Arc::new(Barrier::new(k));
+    let oks: Arc<Vec<AtomicU64>> = Arc::new((0..rounds).map(|_| AtomicU64::new(0)).collect());
+    let (tx, rx) = std::sync::mpsc::channel::<()>();
+    let claim = |round: usize, t: usize| -> Group {
+        let mut r = record(0, 1);
+        r.mls_group_id = GroupId::from_slice(&[0xD0, (round >> 8) as u8, round as u8, t as u8]);
+        let mut n = [0xEEu8; 32];
+        n[1] = (round >> 8) as u8;
+        n[2] = round as u8;
+        r.nostr_group_id = n;
+        r.name = format!("claim-{round}-{t}");
+        r
+    };
+    let panicked = std::thread::scope(|s| {
+        let mut hs = vec![];
+        for t in 0..k {
+            let barrier = barrier.clone();
+            let oks = oks.clone();
+            let tx = tx.clone();
+            hs.push(s.spawn(move || {
+                for round in 0..rounds {
+                    barrier.wait();
+                    if st.save_group(claim(round, t)).is_ok() {
+                        oks[round].fetch_add(1, Ordering::SeqCst);
+                    }
+                }
+                let _ = tx.send(());
+            }));
+        }
+        drop(tx);
+        let mut got = 0;
+        while got < k {
+            match rx.recv_timeout(std::time::Duration::from_secs(120)) {
+                Ok(()) => got += 1,
+                Err(std::sync::mpsc::RecvTimeoutError::Timeout) => {
+                    println!("inconclusive: watchdog - the claim phase did not finish within 120 s in case {case:?}");
+                    std::process::exit(2);
+                }
+                Err(_) => break,
+            }
+        }
+        hs.into_iter().any(|h| h.join().is_err())
+    });
+    if panicked {
+        return Err(Failure::new("panic", "save_group panicked under concurrent use".to_string()));
+    }
+    for round in 0..rounds {
+        let n = oks[round].load(Ordering::SeqCst);
+        if n != 1 {
+            return Err(Failure::new(
+                "conflicting-writes-both-accepted",
+                format!("{k} threads each saved a different new group under the same Nostr group id (round {round}): {n} of the calls returned Ok; every sequential order of these calls lets exactly one succeed"),
+            ));
+        }
+        let mut nid = [0xEEu8; 32];
+        nid[1] = (round >> 8) as u8;
+        nid[2] = round as u8;
+        let owners = st.all_groups().map_err(|e| Failure::new("read-failed", e.to_string()))?.into_iter().filter(|g| g.nostr_group_id == nid).count();
+        if owners != 1 {
+            return Err(Failure::new("conflicting-writes-both-accepted", format!("after the race {owners} groups carry the Nostr group id of round {round}")));
+        }
+    }
+    *rep.counters.entry("nostr-id-claim-races".into()).or_insert(0) += rounds as u64;
+    rep.classes.push(format!("claimers-{k}"));
+    Ok(())
+}
+
+/// N threads open the same, not yet existing database path at the same moment. Any sequential
+/// order of these calls lets every one of them succeed and see the same database.
+fn first_open_phase(case: &Case, rep: &mut CaseReport) -> Result<(), Failure> {
+    let n = case.first_opens.min(12) as usize;
+    if n < 2 {
+        return Ok(());
+    }
+    crate::world::ensure_mock_keyring();
+    let dir = scratch_dir("c19o");
+    let path = dir.0.join("nested").join("first-open.db");
+    let ctor = case.writers_cycles % 3;
+    let key = crate::world::key_for_path(&path);
+    let id = format!("{}#c19", path.display());
+    let barrier = Arc::new(Barrier::new(n));
+    let (tx, rx) = std::sync::mpsc::channel::<()>();
+    let results: Vec<Result<MdkSqliteStorage, String>> = std::thread::scope(|s| {
+        let hs: Vec<_> = (0..n)
+            .map(|_| {
+                let b = barrier.clone();
+                let path = path.clone();
+                let id = id.clone();
+                let tx = tx.clone();
+                s.spawn(move || {
+                    b.wait();
+                    let r = std::panic::catch_unwind(|| {
+                        match ctor {
+                            0 => MdkSqliteStorage::new_unencrypted(&path),
+                            1 => MdkSqliteStorage::new_with_key(&path, mdk_sqlite_storage::EncryptionConfig::new(key)),
+                            _ => MdkSqliteStorage::new(&path, crate::world::KEYRING_SERVICE, &id),
+                        }
+                        .map_err(|e| e.to_string())
+                    })
+                    .unwrap_or_else(|_| Err("PANIC".to_string()));
+                    let _ = tx.send(());
+                    r
+                })
+            })
+            .collect();
+        drop(tx);
+        let mut got = 0;
+        while got < n {
+            match rx.recv_timeout(std::time::Duration::from_secs(120)) {
+                Ok(()) => got += 1,
+                Err(std::sync::mpsc::RecvTimeoutError::Timeout) => {
+                    println!("inconclusive: watchdog - concurrent first opens did not finish within 120 s in case {case:?}");
+                    std::process::exit(2);
+                }
+                Err(_) => break,
+            }
+        }
+        hs.into_iter().map(|h| h.join().unwrap_or_else(|_| Err("PANIC".into()))).collect()
+    });
+    let what = ["new_unencrypted", "new_with_key", "new (keyring)"][ctor as usize];
+    if results.iter().any(|r| matches!(r, Err(e) if e == "PANIC")) {
+        return Err(Failure::new("panic", format!("a concurrent first open ({what}) panicked")));
+    }
+    let errs: Vec<&String> = results.iter().filter_map(|r| r.as_ref().err()).collect();
+    if !errs.is_empty() {
+        let mut kinds: Vec<String> = errs.iter().map(|e| e.chars().take(90).collect()).collect();
+        kinds.sort();
+        kinds.dedup();
+        return Err(Failure::new(
+            "concurrent-first-open-failed",
+            format!("{n} threads opened the same new database path at once with {what}: {} of them got an error ({}); one after the other every one of these calls succeeds", errs.len(), kinds.join(" | ")),
+        ));
+    }
+    // all instances are the same database
+    let oks: Vec<&MdkSqliteStorage> = results.iter().filter_map(|r| r.as_ref().ok()).collect();
+    oks[0].save_group(record(0, 7)).map_err(|e| Failure::new("write-failed", format!("after concurrent first opens: {e}")))?;
+    for (i, o) in oks.iter().enumerate() {
+        match o.find_group_by_mls_group_id(&gid(0)) {
+            Ok(Some(r)) if r.epoch == 7 => {}
+            other => return Err(Failure::new("concurrent-instances-do-not-share-the-database", format!("instance {i} of {n} reads {:?}", other.map(|g| g.map(|g| g.epoch)).map_err(|e| e.to_string())))),
+        }
+    }
+    *rep.counters.entry("concurrent-first-opens".into()).or_insert(0) += n as u64;
+    rep.classes.push(format!("first-open-{what}"));
+    Ok(())
+}
+
 fn sm_message(g: u8, m: u8, v: u64) -> mdk_storage_traits::messages::types::Message {
     let pk = sm::pk(0);
     let ts = nostr::Timestamp::from_secs(1000 + v);
@@ -437,13 +600,16 @@ fn sm_message(g: u8, m: u8, v: u64) -> mdk_storage_traits::messages::types::Mess
 
 pub fn exec(case: &Case, _mode: Mode) -> Result<CaseReport, Failure> {
     let mut rep = CaseReport::default();
+    first_open_phase(case, &mut rep)?;
     if case.sqlite {
         let dir = scratch_dir("c19");
         let st = MdkSqliteStorage::new_unencrypted(dir.0.join("t.db")).map_err(|e| Failure::new("setup-failed", e.to_string()))?;
         stress(&st, case, &mut rep)?;
+        claim_phase(&st, case, &mut rep)?;
     } else {
         let st = MdkMemoryStorage::default();
         stress(&st, case, &mut rep)?;
+        claim_phase(&st, case, &mut rep)?;
     }
     Ok(rep)
 }
@@ -457,10 +623,10 @@ pub fn main(args: &Args) -> i32 {
     let spec = Spec {
         id: "C19",
         level: "exploration",
-        rule: "randomised stress runs against a sequential specification: per group one writer thread repeats (save_group v, replace_group_relays v, save_group_exporter_secret v, every 8th cycle save_message) with the version embedded in every field and every relay URL; 0..8 reader threads check that every record / by-Nostr-id lookup / relay listing / secret is whole (one version, complete set), never goes backwards for a reader, that listings hold no duplicate or foreign message; 0..4 threads take snapshots of groups while they are written. Afterwards every snapshot is rolled back to and must show versions with record >= relays >= secret >= record-1 (the writer's program order: a state of one instant), other groups untouched. Thread counts 2..16, both backends, per-thread yield patterns at SQLite storage ticks; a watchdog turns a proven deadlock (no progress for 20 s, every unfinished thread parked with zero CPU use) into a violation and any other hang into exit 2. Non-trivial = at least two threads and at least one concurrent read; distinct = distinct cases".into(),
+        rule: "randomised stress runs against a sequential specification: per group one writer thread repeats (save_group v, replace_group_relays v, save_group_exporter_secret v, every 8th cycle save_message) with the version embedded in every field and every relay URL; 0..8 reader threads check that every record / by-Nostr-id lookup / relay listing / secret is whole (one version, complete set), never goes backwards for a reader, that listings hold no duplicate or foreign message; 0..4 threads take snapshots of groups while they are written. Afterwards every snapshot is rolled back to and must show versions with record >= relays >= secret >= record-1 (the writer's program order: a state of one instant), other groups untouched. Then 2..6 threads, released together for 40..120 rounds, each save a different new group under one shared Nostr group id: exactly one call per round may succeed and exactly one group may own the id. In a third of the cases 2..12 threads first open one and the same fresh database path at once (unencrypted / caller key / keyring constructor): every open must succeed and all instances must be the same database. Thread counts 2..16, both backends, per-thread yield patterns at SQLite storage ticks; a watchdog turns a proven deadlock (no progress for 20 s, every unfinished thread parked with zero CPU use) into a violation and any other hang into exit 2. Non-trivial = at least two threads and at least one concurrent read; distinct = distinct cases".into(),
         assumptions: vec![
             "schedule coverage is what the OS scheduler plus injected yields produce; a failure may need several runs to reproduce (the replay command runs a case 5 times)".into(),
-            "concurrent first opens of one path are exercised in C13".into(),
+            "what concurrent first opens do to the keyring key is judged in C13; here they must all succeed".into(),
         ],
         min_nontrivial: 20,
         max_shrink_iters: 30,
@@ -472,8 +638,8 @@ pub fn main(args: &Args) -> i32 {
         // the cases are multi-threaded themselves: few workers
         RunPlan { cases, workers: 3 },
         || {
-            (any::<bool>(), 1u8..4, 20u16..max_cycles, 0u8..9, 0u8..5, prop::collection::vec(0u8..6, 1..6), 1u8..5)
-                .prop_map(|(sqlite, groups, writers_cycles, readers, snapshotters, yields, relay_set_size)| Case { sqlite, groups, writers_cycles, readers, snapshotters, yields, relay_set_size })
+            (any::<bool>(), 1u8..4, 20u16..max_cycles, 0u8..9, 0u8..5, prop::collection::vec(0u8..6, 1..6), 1u8..5, 0u8..7, prop_oneof![2 => Just(0u8), 1 => 2u8..13])
+                .prop_map(|(sqlite, groups, writers_cycles, readers, snapshotters, yields, relay_set_size, claimers, first_opens)| Case { sqlite, groups, writers_cycles, readers, snapshotters, yields, relay_set_size, claimers, first_opens })
         },
         exec,
     )
